@@ -175,7 +175,21 @@ struct DefaultSide {
 }
 
 /// The same run on the default build, one thread.
+/// The single-thread build walks the same script; a panic there (e.g. time arithmetic under an
+/// extreme discard policy) is a failure of the run, not of the harness.
 fn default_side(spec: &RunSpec, policy: Option<&PolicyPlan>) -> DefaultSide {
+    match implrun::catch(std::panic::AssertUnwindSafe(|| default_side_inner(spec, policy))) {
+        Ok(d) => d,
+        Err(p) => DefaultSide {
+            digests: vec![],
+            retag: String::new(),
+            ms: 0,
+            policy_digests: None,
+            policy_failures: vec![format!("the single-thread build panicked while walking the script sequentially: {}", p)],
+        },
+    }
+}
+fn default_side_inner(spec: &RunSpec, policy: Option<&PolicyPlan>) -> DefaultSide {
     let t0 = Instant::now();
     let w = gen_workload(spec);
     let mut e = build_engine(&w);
